@@ -8,6 +8,11 @@ CHECKS = {
    technique="TLA+ spec ParticleStore checked by TLC; state-graph replay into C and Python APIs; trace validation of random histories",
    text="TLC exhaustively checks the ParticleStore design (add/remove x4 paths/hash lookup table/N_active) against a reference list model for MaxN=3, 3 hashes incl. 0 and duplicates, depth 5 (quick) / 6-7 (thorough), with and without tree and hybrid integrator. The dumped state graph is then walked against the real library: for every (state, action) pair reachable by the implementation, through the C API and through the Python particles container, the projected implementation state (particles, N_active, return value, error flag, lookup table) must be a spec successor. Seeded random histories of 250-1200 calls with up to 300 particles (crossing the 128/256 growth boundaries) are validated by TLC against Trace_ParticleStore with all invariants evaluated on every state.",
    note="Ids ride in the particle mass; N_active is not modelled together with a tree; qsort order among equal hashes abstracted (any matching entry may be found); memory-safety clause only as far as ASan/UBSan sees the thorough tier's histories."),
+ "C06": dict(
+   category="model_checking", design_ref="DESIGN.md 4/C06",
+   technique="TLA+ specs ArchiveDelta (delta encoder/loader) and Cadence (auto-snapshot protocol) checked by TLC; real archive histories validated against Trace_ArchiveDelta; TLC-simulated Cadence behaviours replayed into the library",
+   text="TLC checks exhaustively that Overlay(first, Diff(first,cur)) = cur for every pair of states of a 4-field model (scalar and pointer kinds; changed, grown, shrunk, vanished, new fields) with Diff and Overlay transcribed from reb_binary_diff / reb_input_fields, and that the auto-snapshot protocol (advance next, then write; re-attach keeps next; restart from last snapshot) yields exactly the prescribed progression. Binding: seeded random histories of real operations (steps, add/remove, remove-all, integrator switch/reset, option changes, variations, N_active) interleaved with appends; after every append the file is parsed into field records and snapshots are reloaded; TLC validates every history against Trace_ArchiveDelta (delta on disk = Diff(first,cur) in descriptor order, header sizes match payloads, reader count/time, reload = state when written, all invariants). 150-1500 TLC-generated Cadence behaviours are replayed on real simulations comparing t, steps, next, next_step and every stored snapshot after each action.",
+   note="Payload equality is by SHA-256 of the bytes with pointer members masked; histories are seeded random, not exhaustive; walltime-based cadence is not modelled; collisions changing N are exercised only as add/remove."),
 }
 
 NOT_YET = {
